@@ -148,8 +148,8 @@ def paint_grid(draw, bbox):
 
 @st.composite
 def prefix_pair_case(draw, formats, tier):
-    """Two glyphs whose names are in a prefix relation (U+1F44D and U+1F44D U+1F3FB: g_1f44d / g_1f44d_1f3fb), the longer one
-    first in the input, sharing one shape that nobody else uses - plus unrelated glyphs. Name-based reasoning about which glyph
+    """Two glyphs whose names are in a prefix relation (U+1F44D and U+1F44D U+1F3FB: g_1f44d / g_1f44d_1f3fb; or, from a custom
+    glyph map, face / face.alt), the longer one first in the input, sharing one shape that nobody else uses - plus unrelated glyphs. Name-based reasoning about which glyph
     owns a shape is exercised here."""
     from ..gen_svg import placement, transform_cmds, unit_shape, cmds_bbox
 
@@ -169,6 +169,12 @@ def prefix_pair_case(draw, formats, tier):
             other = draw(source_model({}, None, vb=vb, max_shapes=2, allow_groups=False))
             nodes = nodes + other["nodes"] if draw(st.booleans()) else other["nodes"] + nodes
         pair.append({"model": {"vb": vb, "nodes": nodes}, "cps": cps})
+    if draw(st.sampled_from([False, True])):
+        # names as a custom glyph map gives them: a base glyph and its dotted alternate ("face.alt", "face.alt.ss01")
+        stem = draw(st.sampled_from(["face", "hand", "g"]))
+        pair[0]["name"] = stem + draw(st.sampled_from([".alt", ".alt.ss01", ".1"]))
+        pair[1]["name"] = stem
+        case["cfg"]["keep_glyph_names"] = True
     used = {tuple(s["cps"]) for s in pair}
     rest = [s for s in case["sources"] if tuple(s["cps"]) not in used]
     k = draw(st.integers(0, len(rest)))
